@@ -390,11 +390,13 @@ impl VarFile {
                 let mut idx = idx;
                 //
                 let mut byte_8 = 0;
+                let mut strided = false;
                 while byte_8 == 0 && idx + 8 < buckets_size {
                     byte_8 = self.read_u64_le()?;
                     idx += 8 * 8;
+                    strided = true;
                 }
-                if idx >= 8 * 8 {
+                if strided {
                     self.seek_back_size(NodePieceSize::new(std::mem::size_of_val(&byte_8) as u32))?;
                     idx -= 8 * 8;
                 }
